@@ -309,6 +309,51 @@ func cloneProof(p *syncer.Proof) *syncer.Proof {
 	return c
 }
 
+// noncompact re-encodes full internal-node entries in the STORED (non-compact) form, i.e. with the two child hashes
+// appended (and, where the verified node is available, with the node's leaf embedded): the form a node database holds
+// and a hostile peer can copy into a proof. The hashes are the true ones, so on its own this is a truthful proof; the
+// point is what the verifier does when FURTHER entries below such a node are forged (it must still bind the children
+// it is given, not the hashes carried by the entry).
+func noncompact(t *rapid.T, p *syncer.Proof, ptrs []*node.Pointer) *syncer.Proof {
+	m := cloneProof(p)
+	all := rapid.Bool().Draw(t, "ncAll")
+	only := rapid.IntRange(0, len(m.Entries)-1).Draw(t, "ncIdx")
+	embedLeaf := rapid.Bool().Draw(t, "ncLeaf")
+	done := 0
+	for i, e := range m.Entries {
+		if len(e) < 2 || e[0] != 0x01 || e[1] != node.PrefixInternalNode || i >= len(ptrs) || ptrs[i] == nil {
+			continue
+		}
+		if !all && i < only {
+			continue
+		}
+		in, ok := ptrs[i].Node.(*node.InternalNode)
+		if !ok {
+			continue
+		}
+		var enc []byte
+		if embedLeaf && (in.LeafNode == nil || in.LeafNode.Node != nil) {
+			full, err := in.MarshalBinary()
+			if err != nil {
+				continue
+			}
+			enc = append([]byte{0x01}, full...)
+		} else {
+			lh, rh := in.Left.GetHash(), in.Right.GetHash()
+			enc = append(append(append([]byte{}, e...), lh[:]...), rh[:]...)
+		}
+		m.Entries[i] = enc
+		done++
+		if !all {
+			break
+		}
+	}
+	if done == 0 {
+		return nil
+	}
+	return m
+}
+
 // mutate applies one generated mutation; other is a proof of a different tree (may be nil);
 // ptrs are the verified pointers of p in entry order (for "replace by correct hash").
 func mutate(t *rapid.T, p *syncer.Proof, other *syncer.Proof, ptrs []*node.Pointer) (*syncer.Proof, string) {
@@ -316,7 +361,7 @@ func mutate(t *rapid.T, p *syncer.Proof, other *syncer.Proof, ptrs []*node.Point
 	n := len(m.Entries)
 	idx := rapid.IntRange(0, n-1).Draw(t, "midx")
 	kinds := []string{"bitflip", "byteset", "truncate-entry", "extend-entry", "drop", "duplicate", "swap", "full-to-random-hash", "full-to-correct-hash",
-		"nil-to-emptyhash", "hash-to-nil", "nil-to-garbage", "truncate-proof", "extend-proof", "version-switch", "untrusted-root", "splice-other", "type-byte"}
+		"nil-to-emptyhash", "hash-to-nil", "nil-to-garbage", "truncate-proof", "extend-proof", "version-switch", "untrusted-root", "splice-other", "type-byte", "leaf-value", "leaf-value", "none"}
 	kind := rapid.SampledFrom(kinds).Draw(t, "mkind")
 	e := m.Entries[idx]
 	switch kind {
@@ -404,6 +449,32 @@ func mutate(t *rapid.T, p *syncer.Proof, other *syncer.Proof, ptrs []*node.Point
 			return nil, kind
 		}
 		m.Entries[idx] = other.Entries[j]
+	case "none":
+		// identity: only meaningful on top of a re-encoded (non-compact) proof, which must verify and stay truthful
+	case "leaf-value":
+		// a well-formed lie: change the last byte of some full leaf entry's value (or of the leaf embedded in an internal
+		// node entry of a version 0 proof), keeping every length field intact
+		var cand []int
+		for i, x := range m.Entries {
+			if len(x) > 8 && x[0] == 0x01 {
+				cand = append(cand, i)
+			}
+		}
+		if len(cand) == 0 {
+			return nil, kind
+		}
+		i := cand[rapid.IntRange(0, len(cand)-1).Draw(t, "lv")]
+		x := m.Entries[i]
+		pos := len(x) - 1
+		if x[1] == node.PrefixInternalNode {
+			// stored-form entries end with 64 bytes of child hashes; the embedded leaf's value ends right before them
+			if n, err := node.UnmarshalBinary(x[1:]); err == nil {
+				if in, ok := n.(*node.InternalNode); ok && in.LeafNode != nil && (in.Left != nil || in.Right != nil) && len(x) > 65 {
+					pos = len(x) - 65
+				}
+			}
+		}
+		x[pos] ^= 0x01
 	case "type-byte":
 		if len(e) == 0 {
 			return nil, kind
@@ -417,7 +488,7 @@ func mutate(t *rapid.T, p *syncer.Proof, other *syncer.Proof, ptrs []*node.Point
 
 const ruleProofs = "case = committed tree (1-60 keys quick / 1-300 thorough, prefix-heavy universe, both backends) + 1-4 queries (SyncGet present/absent/prefix/extension key with siblings on/off, SyncGetPrefixes with limits, " +
 	"SyncIterate with prefetch; proof version 0/1; position = root or an internal node on the key's path) + up to 12 (quick) mutants per proof (bit/byte/truncate/extend entry, drop/duplicate/swap entries, full node -> random or correct hash, nil<->hash, " +
-	"truncate/extend proof, version switch, untrusted root, entries spliced from the proof of a tree differing in one key or value); oracle A: the honest proof verifies (VerifyProof and VerifyProofToWriteLog) and an independent " +
+	"truncate/extend proof, version switch, untrusted root, entries spliced from the proof of a tree differing in one key or value, well-formed leaf value changes; a quarter of the mutants are applied on top of the proof re-encoded with internal nodes in the stored (non-compact, child hashes included) form); oracle A: the honest proof verifies (VerifyProof and VerifyProofToWriteLog) and an independent " +
 	"walker over the verified subtree determines every asked key with the true value/absence; oracle B: a mutant is rejected, or for EVERY universe key (and neighbours) the walker returns 'undetermined' or the true answer, " +
 	"and every write-log entry it yields is a true key/value pair; a proof of the differing tree never verifies against this root. non-trivial = mutant whose entries all still decode (verification reached the hash comparison) or that was accepted; " +
 	"distinct = hash of contents, query and mutation"
@@ -531,7 +602,17 @@ func TestC04Proofs(t *testing.T) {
 			otherProof, _ := f2.ask(q, f2.root.Hash)
 			nm := rapid.IntRange(1, ev.Pick(12, 30)).Draw(t, "nmut")
 			for mi := 0; mi < nm; mi++ {
-				mp, kind := mutate(t, proof, otherProof, ptrs)
+				base, prefix := proof, ""
+				if rapid.IntRange(0, 3).Draw(t, "nc") == 0 {
+					if nc := noncompact(t, proof, ptrs); nc != nil {
+						base, prefix = nc, "noncompact+"
+					}
+				}
+				mp, kind := mutate(t, base, otherProof, ptrs)
+				if prefix == "" && kind == "none" {
+					mp = nil
+				}
+				kind = prefix + kind
 				if mp == nil {
 					rec.Discard("mutation-not-applicable:" + kind)
 					continue
@@ -632,7 +713,29 @@ func (a *adversary) respond(mode int, honest func(f *fixture) (*syncer.ProofResp
 	p := cloneProof(&rsp.Proof)
 	n := len(p.Entries)
 	idx := (a.calls * 7) % n
-	switch a.calls % 5 {
+	switch a.calls % 6 {
+	case 5:
+		// stored-form forgery: internal nodes re-encoded with their true child hashes, then one leaf value changed
+		var pv syncer.ProofVerifier
+		if rootPtr, err := pv.VerifyProof(ctx, rsp.Proof.UntrustedRoot, &rsp.Proof); err == nil {
+			var ptrs []*node.Pointer
+			preorder(rootPtr, rsp.Proof.V, &ptrs)
+			for i, e := range p.Entries {
+				if len(e) < 2 || e[0] != 0x01 || e[1] != node.PrefixInternalNode || i >= len(ptrs) || ptrs[i] == nil {
+					continue
+				}
+				if in, ok := ptrs[i].Node.(*node.InternalNode); ok {
+					lh, rh := in.Left.GetHash(), in.Right.GetHash()
+					p.Entries[i] = append(append(append([]byte{}, e...), lh[:]...), rh[:]...)
+				}
+			}
+		}
+		for i := n - 1; i >= 0; i-- {
+			if e := p.Entries[i]; len(e) > 8 && e[0] == 0x01 && e[1] == node.PrefixLeafNode {
+				e[len(e)-1] ^= 0x01
+				break
+			}
+		}
 	case 0:
 		if len(p.Entries[idx]) > 2 {
 			p.Entries[idx][len(p.Entries[idx])-1] ^= 0x01
@@ -653,7 +756,7 @@ func (a *adversary) respond(mode int, honest func(f *fixture) (*syncer.ProofResp
 		j := (idx + 1) % n
 		p.Entries[idx], p.Entries[j] = p.Entries[j], p.Entries[idx]
 	}
-	*a.log = append(*a.log, fmt.Sprintf("  peer: mutated proof (mode %d)", a.calls%5))
+	*a.log = append(*a.log, fmt.Sprintf("  peer: mutated proof (mode %d)", a.calls%6))
 	return &syncer.ProofResponse{Proof: *p}, nil
 }
 
